@@ -44,6 +44,13 @@ try:
         OBLIG_BY_PROP["C09"] = OBLIG_BY_PROP["C09"] + list((getattr(_bB, "OBLIG_BY_PROP", None) or {}).get("C09", getattr(_bB, "OBLIG", [])))
 except Exception:  # the queue-level theorems stand on their own
     pass
+# C09 for the unbounded queue inside the backend model (bundle X: refused at the maximum capacity, granted after the drain)
+try:
+    _bX = importlib.import_module("props.backend_thm_X")
+    THEOREMS["C09"] = THEOREMS["C09"] + list(_bX.THEOREMS.get("C09", []))
+    MODULES["C09"] = MODULES["C09"] + [m for m in _bX.MODULES.get("C09", []) if m not in MODULES["C09"]]
+except Exception:
+    pass
 
 # bundle M (tools/props/math_thm_M.py): MathUtilities.h + what the bounded constructor makes of a requested capacity, attached to C01
 import props.math_thm_M as _mM
@@ -191,6 +198,17 @@ def run(prop, tier):
                         sc = bres.get("scripts", {}).get(o["case"]) or []
                         oracle_hits.append(("H2 end-to-end case %s (replay with: python3 tools/check.py C03 --replay <file>)" % o["case"],
                                             "ORACLE " + o["msg"], [""] + sc, len(sc) + 1))
+                # the correspondence of the blocking / dropping / growth behaviour with the Lean backend machine (bounded and
+                # unbounded builds): a disagreement about a parked call, a grant, a capacity is C09's broken tie
+                mm9 = [m for m in bres["mismatches"] if "C09" in m["props"] and len(m["props"]) < 8]
+                if mm9 and not oracle_hits:
+                    m0 = mm9[0]
+                    sc = bres.get("scripts", {}).get(m0["case"]) or []
+                    ck.violation("h2_correspondence", "# H2 correspondence stream `backend` disagrees (case %s): %s impl=[%s] model=[%s]\n%s\n" % (
+                        m0["case"], m0["op"], m0["impl"], m0["model"], "\n".join(sc)),
+                        "backend model and implementation disagree on a blocked/granted/grown reservation (%d lines): %s impl=[%s] model=[%s]" % (
+                            len(mm9), m0["op"], m0["impl"][:120], m0["model"][:120]), no_input=True)
+                stats_lines.append("H2 end-to-end: %d lines compared with the backend machine (bounded and unbounded builds), %d disagree on C09 matters" % (bres["lines"], len(mm9)))
                 stats_lines.append("H2 end-to-end: %d scripted lives, %d parked calls observed, %d refused after the backend found every queue empty" % (
                     bres["cases"], bres["stats"].get("parks", 0), sum(1 for o in bres["oracle"] if o["prop"] == "C09")))
         except Exception as exn:  # the backend bundle is optional for this check
